@@ -1,3 +1,186 @@
-import KyroModel.Tiered.Knn
+/-
+C06 — Search results are sound and reflect acknowledged recent writes.
+
+Property statements only.  Model: `Tiered/Knn.lean`.  What each tier returns for the query — the
+exhaustive scan of the recent-write tier (top 2k) and the ANN tier's answer — is universally
+quantified: the theorems hold whatever the heuristic graph search returns.  Tie: `./check C06`
+asks the real tiers for exactly those lists, the real engine for its answer, and compares.
+
+* `C06_at_most_k`, `C06_distinct`, `C06_sorted`: at most k distinct documents in non-decreasing
+  distance order;
+* `C06_every_result_is_a_tier_answer`: every returned (document, distance) pair is the recent-write
+  tier's candidate for that document, or — only when that tier has none for it — the ANN tier's;
+* `C06_results_exist`: every returned document exists now (recent-write candidates are checked
+  against the canonical token; the ANN tier answers with live documents only — hypothesis `hcold`,
+  the tombstone filter of `HnswBackend::knn_search`, exercised by the run);
+* `C06_stale_mirror_never_served`: a candidate whose mirror does not match the canonical token
+  (overwritten or deleted since) is never served from the recent-write tier;
+* `C06_recent_write_present`: a coherent recent-write candidate is in the result unless the
+  result already holds k documents none of which is farther than it.
+-/
+import KyroModel.Lemmas.Knn
+
 namespace KyroModel.C06
+open KyroModel KyroModel.Knn
+
+theorem C06_at_most_k (hot cold : List Cand) (k : Nat) : (mergeKnn hot cold k).length ≤ k := by
+  simp [mergeKnn, List.length_take]
+  omega
+
+theorem C06_distinct (hot cold : List Cand) (k : Nat) :
+    ((mergeKnn hot cold k).map (·.id)).Nodup := by
+  have hp := (perm_sortCands (dedup hot cold)).map (·.id)
+  have hn : ((sortCands (dedup hot cold)).map (·.id)).Nodup := hp.nodup_iff.mpr (dedup_nodup hot cold)
+  simp only [mergeKnn, List.map_take]
+  exact hn.sublist (List.take_sublist _ _)
+
+theorem C06_sorted (hot cold : List Cand) (k : Nat) :
+    (mergeKnn hot cold k).Pairwise (fun a b => a.key ≤ b.key) := by
+  have hs : Sorted (sortCands (dedup hot cold)) := sorted_sortCands _
+  have : ((sortCands (dedup hot cold)).take k).Pairwise (fun a b => le a b = true) :=
+    hs.sublist (List.take_sublist _ _)
+  exact this.imp (fun h => le_key h)
+
+theorem mem_merge (hot cold : List Cand) (k : Nat) (x : Cand) (hx : x ∈ mergeKnn hot cold k) :
+    x ∈ dedup hot cold :=
+  (perm_sortCands _).mem_iff.mp (List.mem_of_mem_take hx)
+
+/-- hot first: a returned pair is the recent-write tier's, or the ANN tier's for a document the
+    recent-write tier did not answer for -/
+theorem C06_every_result_is_a_tier_answer (hot cold : List Cand) (k : Nat) (x : Cand)
+    (hx : x ∈ mergeKnn hot cold k) : x ∈ hot ∨ (x ∈ cold ∧ x.id ∉ hot.map (·.id)) := by
+  have hd := mem_merge hot cold k x hx
+  rw [dedup_eq] at hd
+  rcases coldFold_sub cold (hotFold hot) x hd with h | ⟨hc, hn⟩
+  · exact Or.inl (hotFold_sub hot x h)
+  · refine Or.inr ⟨hc, ?_⟩
+    intro hm
+    obtain ⟨c, hc', hid⟩ := List.mem_map.mp hm
+    -- some entry with this id survives the hot fold, so `hasId` would have been true
+    have : hasId (hotFold hot) x.id = true := by
+      have key : ∀ (l acc : List Cand), (x.id ∈ l.map (·.id) ∨ x.id ∈ acc.map (·.id)) →
+          x.id ∈ (l.foldl (fun acc c => c :: acc.filter (·.id != c.id)) acc).map (·.id) := by
+        intro l
+        induction l with
+        | nil => intro acc h; rcases h with h | h; · cases h
+                                                   · exact h
+        | cons y ys ih =>
+          intro acc h
+          simp only [List.foldl_cons]
+          apply ih
+          by_cases hy : y.id = x.id
+          · exact Or.inr (by simp [hy])
+          · rcases h with h | h
+            · simp only [List.map_cons, List.mem_cons] at h
+              rcases h with h | h
+              · exact (hy h.symm).elim
+              · exact Or.inl h
+            · right
+              obtain ⟨z, hz, hzid⟩ := List.mem_map.mp h
+              refine List.mem_map.mpr ⟨z, List.mem_cons_of_mem _ (List.mem_filter.mpr ⟨hz, ?_⟩), hzid⟩
+              simp only [bne_iff_ne, ne_eq]
+              rw [hzid]
+              exact fun e => hy e.symm
+      exact (hasId_iff _ _).mpr (key hot [] (Or.inl hm))
+    rw [this] at hn
+    cases hn
+
+/-! ### on the engine state -/
+
+theorem filterHot_cold {D : Type} [DecidableEq D] (digest : Vec → D) (s : TState D) (hot : List Cand) :
+    (filterHot digest s hot).1.cold = s.cold := by
+  induction hot generalizing s with
+  | nil => rfl
+  | cons c rest ih =>
+    simp only [filterHot]
+    split
+    · exact ih s
+    · split
+      · exact ih s
+      · rw [ih]; rfl
+      · rw [ih]; rfl
+      · exact ih s
+
+/-- every candidate the coherence filter keeps was offered by the recent-write tier, exists in
+    the canonical store, and its mirror carries the canonical token -/
+theorem filterHot_kept {D : Type} [DecidableEq D] (digest : Vec → D) (s : TState D)
+    (hot : List Cand) (c : Cand) (hc : c ∈ (filterHot digest s hot).2) :
+    c ∈ hot ∧ (alookup c.id s.cold).isSome := by
+  induction hot generalizing s with
+  | nil => simp [filterHot] at hc
+  | cons x rest ih =>
+    simp only [filterHot] at hc
+    split at hc
+    · exact ⟨List.mem_cons_of_mem _ (ih s hc).1, (ih s hc).2⟩
+    · rename_i h hh
+      split at hc
+      · rename_i hm
+        rcases List.mem_cons.mp hc with rfl | hc'
+        · refine ⟨List.mem_cons_self .., ?_⟩
+          unfold canonicalState at hm
+          cases hl : alookup c.id s.cold with
+          | none => simp [hl] at hm
+          | some d => simp
+        · exact ⟨List.mem_cons_of_mem _ (ih s hc').1, (ih s hc').2⟩
+      · have := ih (discardHot s x.id) hc
+        exact ⟨List.mem_cons_of_mem _ this.1, by simpa [discardHot] using this.2⟩
+      · have := ih (discardHot s x.id) hc
+        exact ⟨List.mem_cons_of_mem _ this.1, by simpa [discardHot] using this.2⟩
+      · exact ⟨List.mem_cons_of_mem _ (ih s hc).1, (ih s hc).2⟩
+
+/-- **Every returned document exists now**, whatever the tiers answered, provided the ANN tier
+    answers with live documents (its tombstone filter). -/
+theorem C06_results_exist {D : Type} [DecidableEq D] (digest : Vec → D) (s : TState D)
+    (hot cold : List Cand) (k : Nat) (hcold : ∀ c ∈ cold, (alookup c.id s.cold).isSome)
+    (x : Cand) (hx : x ∈ (knnStep digest s hot cold k).2) : (alookup x.id s.cold).isSome := by
+  rcases C06_every_result_is_a_tier_answer _ _ _ x hx with h | ⟨h, _⟩
+  · exact (filterHot_kept digest s hot x h).2
+  · exact hcold x h
+
+/-- **A stale mirror is never served**: a recent-write candidate whose mirror does not match the
+    canonical token and payload at the time it is examined — the document was overwritten past
+    the mirror, or deleted — is not kept (head position: the state is the current one). -/
+theorem C06_stale_mirror_never_served {D : Type} [DecidableEq D] (digest : Vec → D) (s : TState D)
+    (c : Cand) (rest : List Cand) (h : HotEntry D)
+    (hh : alookup c.id s.hot = some h)
+    (hstale : canonicalState digest s.cold c.id h.vec h.tok ≠ .matched)
+    (hnodup : c.id ∉ rest.map (·.id)) :
+    c.id ∉ ((filterHot digest s (c :: rest)).2).map (·.id) := by
+  intro hm
+  obtain ⟨x, hx, hid⟩ := List.mem_map.mp hm
+  simp only [filterHot, hh] at hx
+  cases hcs : canonicalState digest s.cold c.id h.vec h.tok with
+  | matched => exact hstale hcs
+  | tokenMismatch =>
+    simp only [hcs] at hx
+    exact hnodup (List.mem_map.mpr ⟨x, (filterHot_kept digest _ rest x hx).1, hid⟩)
+  | localCorruption =>
+    simp only [hcs] at hx
+    exact hnodup (List.mem_map.mpr ⟨x, (filterHot_kept digest _ rest x hx).1, hid⟩)
+  | missing =>
+    simp only [hcs] at hx
+    exact hnodup (List.mem_map.mpr ⟨x, (filterHot_kept digest _ rest x hx).1, hid⟩)
+
+/-- **An acknowledged recent write is not missing**: a candidate of the recent-write tier that
+    passed the coherence filter (distinct ids, as a scan of a map yields) is in the result, or
+    the result already holds k documents none of which is farther than it — it is never left out
+    while strictly closer than the k-th returned document.  Holds for EVERY answer of the ANN tier. -/
+theorem C06_recent_write_present (hot cold : List Cand) (k : Nat) (hnd : NodupIds hot) (h : Cand)
+    (hh : h ∈ hot) :
+    h ∈ mergeKnn hot cold k ∨
+      ((mergeKnn hot cold k).length = k ∧ ∀ r ∈ mergeKnn hot cold k, r.key ≤ h.key) := by
+  have hd : h ∈ dedup hot cold := by
+    rw [dedup_eq]
+    exact coldFold_mono cold _ h (hotFold_keeps hot hnd h hh)
+  have hs : h ∈ sortCands (dedup hot cold) := (perm_sortCands _).mem_iff.mpr hd
+  by_cases hin : h ∈ (sortCands (dedup hot cold)).take k
+  · exact Or.inl hin
+  · obtain ⟨hl, hall⟩ := take_keeps_closest _ (sorted_sortCands _) k h hs hin
+    exact Or.inr ⟨hl, fun r hr => le_key (hall r hr)⟩
+
+/-- non-vacuity: a stale hot copy of document 1 is dropped, the fresh hot copy of document 2 beats
+    the ANN tier's value for it, document 3 comes from the ANN tier, k = 2 cuts the farthest -/
+example :
+    mergeKnn [⟨2, 5, 50⟩] [⟨2, 6, 60⟩, ⟨3, 4, 40⟩, ⟨1, 9, 90⟩] 2 = [⟨3, 4, 40⟩, ⟨2, 5, 50⟩] := by decide
+
 end KyroModel.C06
